@@ -98,10 +98,10 @@ func (vc *VC) call(fr *Frame, st *State, instr *ssa.Call, c *ssa.CallCommon) {
 	}
 	if c.IsInvoke() {
 		recv := vc.val(fr, c.Value)
-		if vc.safety {
+		key := vc.eng.methodKey(c.Method)
+		if !vc.eng.isPure(key) {
 			vc.addObl(fr, st, "nil", "invoke:"+c.Method.Name(), Not(Eq(ITyp(recv), IntLit(0))), nil, pos)
 		}
-		key := vc.eng.methodKey(c.Method)
 		if con := vc.eng.contractsByKey[key]; con != nil {
 			rs := vc.applyContract(fr, st, con, nil, c.Method, append([]Term{recv}, args...), c.Value.Type(), pos)
 			vc.setResults(fr, instr, rs)
@@ -690,7 +690,7 @@ func (vc *VC) nativeModel(fr *Frame, st *State, instr *ssa.Call, c *ssa.CallComm
 			return false
 		}
 		b := args[1]
-		if vc.safety {
+		if true {
 			vc.addObl(fr, st, "bounds", "binary."+op, Le(IntLit(int64(width)), SLen(b)), nil, pos)
 		}
 		u8 := types.Typ[types.Uint8]
